@@ -21,6 +21,7 @@ func All() map[string]orch.Property {
 		&C07{},
 		&C10{},
 		&C11{},
+		&C15{},
 		&C16{},
 		&C17{},
 		&C18{},
